@@ -134,13 +134,33 @@ func (b *baseExecutor) traversalArgs(node ast.Node, argsIndex *[]int32) {
 		break
 	case *ast.BetweenExpr:
 		expr := node.(*ast.BetweenExpr)
+		b.traversalArgs(expr.Expr, argsIndex)
 		b.traversalArgs(expr.Left, argsIndex)
 		b.traversalArgs(expr.Right, argsIndex)
 		break
 	case *ast.PatternInExpr:
+		b.traversalArgs(node.(*ast.PatternInExpr).Expr, argsIndex)
 		exprs := node.(*ast.PatternInExpr).List
 		for i := 0; i < len(exprs); i++ {
 			b.traversalArgs(exprs[i], argsIndex)
+		}
+		break
+	case *ast.ParenthesesExpr:
+		b.traversalArgs(node.(*ast.ParenthesesExpr).Expr, argsIndex)
+		break
+	case *ast.UnaryOperationExpr:
+		b.traversalArgs(node.(*ast.UnaryOperationExpr).V, argsIndex)
+		break
+	case *ast.IsNullExpr:
+		b.traversalArgs(node.(*ast.IsNullExpr).Expr, argsIndex)
+		break
+	case *ast.PatternLikeExpr:
+		b.traversalArgs(node.(*ast.PatternLikeExpr).Expr, argsIndex)
+		b.traversalArgs(node.(*ast.PatternLikeExpr).Pattern, argsIndex)
+		break
+	case *ast.RowExpr:
+		for _, v := range node.(*ast.RowExpr).Values {
+			b.traversalArgs(v, argsIndex)
 		}
 		break
 	case *test_driver.ParamMarkerExpr:
